@@ -31,7 +31,7 @@ namespace F = primitiv::functions;
 using vh::BadOp;
 typedef std::vector<Node> NV;
 
-enum Dom { ANY, POS, UNIT, MID };  // nonzero / positive / |x| <= 1 / 1/2 <= |x| <= 3/2
+enum Dom { ANY, POS, UNIT, MID, POSM };  // nonzero / positive / |x| <= 1 / 1/2 <= |x| <= 3/2 / 1/2 <= x <= 2
 
 static Device *g_other = nullptr;  // a second device object of the other backend
 
@@ -96,6 +96,7 @@ static std::vector<float> values(Rng &r, std::uint32_t n, Dom dom) {
   if (dom == POS) for (int k = 2; k <= 40; ++k) pool.push_back(k);
   else if (dom == UNIT) for (int k = 1; k <= 8; ++k) { pool.push_back(k); pool.push_back(-k); }
   else if (dom == MID) for (int k = 4; k <= 12; ++k) { pool.push_back(k); pool.push_back(-k); }
+  else if (dom == POSM) for (int k = 4; k <= 16; ++k) pool.push_back(k);
   else for (int k = 1; k <= 20; ++k) { pool.push_back(k); pool.push_back(-k); }
   std::shuffle(pool.begin(), pool.end(), r.g);
   std::vector<float> v(n);
@@ -191,8 +192,10 @@ static Case make_case(const std::string &name, Rng &r) {
     sa.update_batch(batch_of(pat, 0));
     sb.update_batch(batch_of(pat, 1));
     c.ps = {sa, sb};
-    Dom d = (fn == "pow") ? POS : ANY;
-    c.dom = {d, (fn == "divide") ? POS : d};
+    // pow: base and exponent in [1/2, 2] (values up to 5^5 drown a float32 difference quotient in rounding noise);
+    // divide: denominators in 1/2 <= |b| <= 3/2 (the truncation error of the quotient grows like h^2 / b^4)
+    Dom d = (fn == "pow") ? POSM : ANY;
+    c.dom = {d, (fn == "divide") ? MID : d};
     c.f = [fn](const NV &x) -> Node {
       if (fn == "add") return x[0] + x[1];
       if (fn == "subtract") return x[0] - x[1];
@@ -412,7 +415,8 @@ static Case make_case(const std::string &name, Rng &r) {
 // parameter (batch 1) + batched constant offsets in {-1/32, 0, 1/32}.
 static double eval_total(Device &dev, const Case &c, const std::vector<std::vector<float>> &theta,
                          const std::vector<std::vector<float>> &offs,
-                         const std::vector<float> &W, std::vector<std::vector<float>> *grads, Shape *yshape) {
+                         const std::vector<float> &W, std::vector<std::vector<float>> *grads, Shape *yshape,
+                         double *mag = nullptr) {
   std::vector<std::unique_ptr<Parameter>> ps;
   for (std::size_t i = 0; i < c.ps.size(); ++i) ps.emplace_back(new Parameter(c.ps[i].resize_batch(1), theta[i], dev));
   Graph g;
@@ -426,6 +430,12 @@ static double eval_total(Device &dev, const Case &c, const std::vector<std::vect
   Node y = c.f(xs);
   if (yshape) *yshape = y.shape();
   Node total = W.empty() ? y : y * F::input<Node>(y.shape(), W, dev);
+  if (mag) {
+    // sum of the magnitudes of the summed terms: the float32 rounding noise of the total is proportional to it
+    *mag = 0;
+    for (float e : total.to_vector()) *mag += std::fabs(e);
+    for (const Node &x : xs) *mag += 2.75 * x.shape().size();
+  }
   if (!W.empty() && !c.expect_zero) {
     // Every operand gets a second consumer that is created AFTER f, so that the
     // reverse sweep reaches f's backward rule with non-zero argument gradients
@@ -588,20 +598,37 @@ static std::string exec(const std::vector<std::string> &w) {
   std::vector<float> W(ys.size());
   for (float &e : W) { int k = static_cast<int>(r.in(1, 4)); e = (r.coin() ? k : -k) / 4.0f; }
   std::vector<std::vector<float>> grads;
-  eval_total(*dev, c, theta, offs, W, &grads, nullptr);
+  double mag = 0;
+  eval_total(*dev, c, theta, offs, W, &grads, nullptr, &mag);
   const float h = 1.0f / 64.0f;
+  // rounding noise of a central difference of a float32 total whose terms sum to `mag` in magnitude
+  auto noise = [&](double hh) { return 8.0 * 6e-8 * mag / (2.0 * hh); };
+  auto central = [&](std::size_t i, std::size_t j, float hh) {
+    const float keep = theta[i][j];
+    theta[i][j] = keep + hh;
+    const double fp = eval_total(*dev, c, theta, offs, W, nullptr, nullptr);
+    theta[i][j] = keep - hh;
+    const double fm = eval_total(*dev, c, theta, offs, W, nullptr, nullptr);
+    theta[i][j] = keep;
+    return (fp - fm) / (2.0 * hh);
+  };
   for (std::size_t i = 0; i < theta.size(); ++i) {
     for (std::size_t j = 0; j < theta[i].size(); ++j) {
-      const float keep = theta[i][j];
-      theta[i][j] = keep + h;
-      const double fp = eval_total(*dev, c, theta, offs, W, nullptr, nullptr);
-      theta[i][j] = keep - h;
-      const double fm = eval_total(*dev, c, theta, offs, W, nullptr, nullptr);
-      theta[i][j] = keep;
-      const double num = c.expect_zero ? 0.0 : (fp - fm) / (2.0 * h);
+      double num = c.expect_zero ? 0.0 : central(i, j, h);
       const double ana = grads[i][j];
-      const double scale = std::max(1.0, std::max(std::fabs(num), std::fabs(ana)));
-      if (!(std::fabs(num - ana) <= 2e-2 * scale)) {
+      double scale = std::max(1.0, std::max(std::fabs(num), std::fabs(ana)));
+      bool good = std::fabs(num - ana) <= 2e-2 * scale + noise(h);
+      if (!good && !c.expect_zero) {
+        // second opinion before reporting: halve the step; |num(h/2) - num(h)| measures the truncation error
+        // (about 3/4 of C h^2), the Richardson value (4 num(h/2) - num(h)) / 3 removes its leading term
+        const double num2 = central(i, j, h / 2);
+        const double rich = (4.0 * num2 - num) / 3.0;
+        const double trunc = std::fabs(num2 - num);
+        scale = std::max(1.0, std::max(std::fabs(rich), std::fabs(ana)));
+        good = std::fabs(rich - ana) <= 2e-2 * scale + 0.5 * trunc + 2.0 * noise(h / 2);
+        num = rich;
+      }
+      if (!good) {
         std::ostringstream os;
         os << "ok FAIL case=" << w[1] << " shapes=";
         for (const Shape &s : c.ps) os << s.to_string() << ";";
